@@ -72,9 +72,9 @@ func (c *Ctx) FactsAt(in ssa.Instruction) []Fact {
 		return f
 	}
 	var out []Fact
-	for _, g := range core.GuardsOf(in) {
-		cd := core.CondOf(g.If.Cond)
-		truth := g.Branch
+	var add func(cond ssa.Value, truth bool, iff *ssa.If, d int)
+	add = func(cond ssa.Value, truth bool, iff *ssa.If, d int) {
+		cd := core.CondOf(cond)
 		if cd.Neg {
 			truth = !truth
 		}
@@ -83,10 +83,33 @@ func (c *Ctx) FactsAt(in ssa.Instruction) []Fact {
 			if !truth {
 				op = negate(op)
 			}
-			out = append(out, Fact{Op: op, X: cd.X, Y: cd.Y, If: g.If})
-		} else {
-			out = append(out, Fact{Bool: cd.X, Truth: truth, If: g.If})
+			out = append(out, Fact{Op: op, X: core.Forward(cd.X), Y: core.Forward(cd.Y), If: iff})
+			return
 		}
+		out = append(out, Fact{Bool: cd.X, Truth: truth, If: iff})
+		// a boolean merged from a short-circuit expression or a flag variable:
+		// phi [const..., V]. If the required truth value can only come from the
+		// one non-constant edge, V had that value.
+		if ph, ok := cd.X.(*ssa.Phi); ok && d < 4 {
+			var cand ssa.Value
+			n := 0
+			for _, e := range ph.Edges {
+				if k, isK := e.(*ssa.Const); isK && k.Value != nil && k.Value.Kind() == constant.Bool {
+					if constant.BoolVal(k.Value) == truth {
+						n = 2 // the value can also come from a constant edge: nothing follows
+					}
+					continue
+				}
+				n++
+				cand = e
+			}
+			if n == 1 && cand != nil {
+				add(cand, truth, iff, d+1)
+			}
+		}
+	}
+	for _, g := range core.GuardsOf(in) {
+		add(g.If.Cond, g.Branch, g.If, 0)
 	}
 	c.factCache[in] = out
 	return out
@@ -156,6 +179,14 @@ func (c *Ctx) equiv(a, b ssa.Value, d int) bool {
 	}
 	if a == nil || b == nil || d > 6 {
 		return false
+	}
+	// a value that only passed through a field of a fresh local struct is that value
+	if d == 0 {
+		if fa, fb := core.Forward(a), core.Forward(b); fa != a || fb != b {
+			if c.equiv(fa, fb, d+1) {
+				return true
+			}
+		}
 	}
 	switch x := a.(type) {
 	case *ssa.Const:
@@ -394,7 +425,7 @@ func (c *Ctx) funcMayStore(fn *ssa.Function, fname string, depth int) bool {
 // none is known). It uses dominating guards, the shape of v (len ≥ 0,
 // constants, v = u + k) and simple induction variables.
 func (c *Ctx) LowerBound(v ssa.Value, at ssa.Instruction) (int64, bool) {
-	return c.lowerBound(v, at, 0)
+	return c.lowerBound(core.Forward(v), at, 0)
 }
 
 // edgeFact returns the fact established by taking the edge pred→succ when pred
@@ -510,6 +541,9 @@ func (c *Ctx) phiLower(phi *ssa.Phi, at ssa.Instruction, d int) (int64, bool) {
 			continue
 		}
 		pred := phi.Block().Preds[i]
+		if !core.LiveEdge(pred, phi.Block()) {
+			continue // no feasible path takes this edge (e.g. after a return-on-error that always fires)
+		}
 		term := pred.Instrs[len(pred.Instrs)-1]
 		var extra []Fact
 		if ef, ok := c.edgeFact(pred, phi.Block()); ok {
